@@ -441,7 +441,7 @@ fn run_c16(c: &C16Case, w: &WCtx) -> Result<Report, Failure> {
 }
 
 fn n_thresholds(tier: Tier) -> u64 {
-    tier.pick(40, 140)
+    tier.pick(100, 400)
 }
 
 fn case_of(tier: Tier, index: u64, w: &WCtx) -> Result<C16Case, Failure> {
@@ -476,7 +476,7 @@ impl Prop for C16 {
         "fault_enumeration"
     }
     fn rule(&self) -> String {
-        "fault enumeration in a child process (SIGXFSZ ignored): three workload shapes so that each file is in turn the largest (values of 150-400 KB; 600 keys of ~1 KB; 65536-bucket table with few entries), a flushed baseline followed by buffered updates made with the limit lifted; then RLIMIT_FSIZE = T and flush / sync_data / sync_all; T ranges over the header offsets, every 128 KiB buffer-chunk boundary (-1, 0, +1, +1000) up to beyond the largest file, each file's end (-1, 0, +1) and half of it (quick: 40 thresholds per shape and call spread over that list, thorough: 140). Oracle: Ok under the limit => the files on disk hold the model state (independent decode + copy opened with the crate); Err => (i) reads while the limit is in force may return Err but never a wrong value, (ii) after lifting the limit get of every key, len and a full iteration equal the model, (iii) the next flush/sync returns Ok and the files on disk hold the model state, also in the directory left behind when the process exits without running destructors (as by SIGKILL). evaluations = (shape, call, T, key type) cases. Non-trivial: T at which the call returned Err; distinct by (shape, call, T, key type)."
+        "fault enumeration in a child process (SIGXFSZ ignored): three workload shapes so that each file is in turn the largest (values of 150-400 KB; 600 keys of ~1 KB; 65536-bucket table with few entries), a flushed baseline followed by buffered updates made with the limit lifted; then RLIMIT_FSIZE = T and flush / sync_data / sync_all; T ranges over the header offsets, every 128 KiB buffer-chunk boundary (-1, 0, +1, +1000) up to beyond the largest file, each file's end (-1, 0, +1) and half of it (quick: 100 thresholds per shape and call spread over that list, thorough: 400, i.e. the whole list). Oracle: Ok under the limit => the files on disk hold the model state (independent decode + copy opened with the crate); Err => (i) reads while the limit is in force may return Err but never a wrong value, (ii) after lifting the limit get of every key, len and a full iteration equal the model, (iii) the next flush/sync returns Ok and the files on disk hold the model state, also in the directory left behind when the process exits without running destructors (as by SIGKILL). evaluations = (shape, call, T, key type) cases. Non-trivial: T at which the call returned Err; distinct by (shape, call, T, key type)."
             .to_string()
     }
     fn assumptions(&self) -> Vec<String> {
